@@ -282,6 +282,26 @@ def sample_points(rng, inp, delta, bound, count):
 
 
 # ------------------------------------------------------------------ the check
+def _drop_heading_axiom(cx):
+    """vp.parse_assumptions reads the heading word of a second consecutive 'Axioms:' block of coqc's output as an
+    axiom called 'Axioms' (this file has several theorems over R, so several blocks).  Remove that artefact - and
+    only that - from what cx.prove() recorded; real axiom names are left to the allow-list check."""
+    fixed = []
+    for n, d in cx.broken:
+        if n == "coq:axioms" and ":" in d:
+            head, names = d.rsplit(":", 1)
+            rest = [a.strip() for a in names.split(",") if a.strip() and a.strip() != "Axioms"]
+            if not rest:
+                continue
+            d = head + ": " + ", ".join(rest)
+        fixed.append((n, d))
+    cx.broken[:] = fixed
+    ax = cx.cov.get("axioms_reported_by_Print_Assumptions")
+    if ax:
+        cx.cov["axioms_reported_by_Print_Assumptions"] = [a for a in ax if a != "Axioms"]
+    cx.cov["trusted_base"] = [t for t in cx.cov.get("trusted_base", []) if t != "axiom: Axioms"]
+
+
 def run(cx):
     cx.assumptions += [
         "Offset: the metric statement is decided only at the generated sample points and only outside the band "
@@ -295,6 +315,7 @@ def run(cx):
         "monotone-chain correctness beyond the exhaustive bounded sweep is certificate-checked per output, not proved",
     ]
     cx.prove()
+    _drop_heading_axiom(cx)
     mls = vp.coq_extract("ExtractC12", ["c12_model.ml"])
     drv = vp.ocaml_build("c12_driver", mls + [os.path.join(vp.ROOT, "extract/c12_driver.ml")])
     exe = vp.build_harness("c12_xsec", "seq", link_lib=True)
@@ -324,6 +345,8 @@ def run(cx):
     cx.log("integer-regime correspondence done")
     api_checks(cx, random.Random(cx.seed * 104729 + 12), exe, drive, st, bump)
     cx.cov.update({"evaluations": st["evals"], "distinct_nontrivial": len(st["nontriv"]),
+                   "programs": st["evals"],
+                   "disagreements_checked": sum(cx.cov.get("correspondence_mismatches", {}).values()),
                    "rule": "seeded generators; integer regime: rings/point sets/ring forests on a small lattice (ties, duplicates, collinear runs, clusters, nested "
                            "and orphan holes) compared output-for-output with the extracted ports, non-trivial = SimplifyRing removes some but not all removable "
                            "vertices / hull has >=3 vertices and drops a point / forest has a hole; API regime: regularized cross-sections (convex, star, collinear, "
@@ -370,6 +393,9 @@ def corr_integer(cx, rng, run_both, drive, st, bump):
         out_ring = list(zip(hv[1::2], hv[2::2]))
         # property oracle on the implementation's own output, always
         oracle_lines.append("SCHK %s %s %s %s %s" % (c["id"], hx(c["num"] ** 2), hx(c["den"] ** 2), xr(c["ring"]), xr(out_ring)))
+        # second oracle: is every vertex of the INPUT ring already >= tol away from the line through its neighbours?
+        oracle_lines.append("SCHK %sin %s %s %s %s" % (c["id"], hx(c["num"] ** 2), hx(c["den"] ** 2), xr(c["ring"]), xr(c["ring"])))
+        c["removed"] = len(c["ring"]) - m
         pending.append(("S", c, hv != dv, h, d))
         if hv != dv:
             mism["SIMP"] += 1
@@ -440,6 +466,11 @@ def corr_integer(cx, rng, run_both, drive, st, bump):
                 key = "simplify-not-subsequence" if (o and o[2] != "1") else "simplify-vertex-below-tolerance"
                 cx.violation(key, "SimplifyRing output rejected by the exact ring checker (subsequence=%s, deviation>=tol=%s): ring=%s tol=%d/%d out=%s"
                              % (o and o[2], o and o[3], c["ring"], c["num"], c["den"], " ".join(h[2:])), {"case": c, "impl": " ".join(h)})
+            elif c.get("removed", 0) > 0 and O.get(c["id"] + "in", [0, 0, 0, "0"])[3] == "1":
+                cx.violation("simplify-removed-vertex-not-below-tolerance",
+                             "SimplifyRing deleted %d vertices although every vertex of the input ring is at least the tolerance away from the line through "
+                             "its neighbours (only vertices closer than the tolerance may go): ring=%s tol=%d/%d out=%s"
+                             % (c["removed"], c["ring"], c["num"], c["den"], " ".join(h[2:])), {"case": c, "impl": " ".join(h)})
             elif differs and reported["S"] < 3:
                 reported["S"] += 1
                 cx.broke("corr:C12/simplify_ring#%s" % c["id"], "model and SimplifyRing differ (output passes the ring checker): ring=%s tol=%d/%d impl=%s model=%s"
